@@ -32,6 +32,9 @@ Fields(s, dels) ==
   IN Append(r[1], r[2])
 \* the tokenizer returns every field in order; whether a trailing empty field (string ends in a delimiter, or is empty) is reported is left open
 TokensOk(out, s, dels) == LET f == Fields(s, dels) IN out = f \/ (f[Len(f)] = <<>> /\ out = SubSeq(f, 1, Len(f) - 1))
+\* qstrtok also reports what ended each field: the delimiters of the string in order, then 0 for a last field that runs to the end
+StopsOf(s, dels) == LET f == Fields(s, dels) IN
+                    SelectSeq(s, LAMBDA c : \E j \in 1..Len(dels) : dels[j] = c) \o (IF f[Len(f)] # <<>> THEN <<0>> ELSE <<>>)
 \* line reader: next line from position off (1-based), without CRs; returns <<line, new offset>>; size = buffer size
 RECURSIVE GetsFrom(_, _, _, _)
 GetsFrom(s, i, acc, room) == IF i > Len(s) \/ room = 0 THEN <<acc, i>>
@@ -83,6 +86,7 @@ ASSUME Trim(<<32, 9, 97, 32, 98, 10, 13>>) = <<97, 32, 98>>
 ASSUME ReplaceStr(<<97, 97, 97>>, <<97, 97>>, <<98>>) = <<98, 97>>            \* leftmost, non-overlapping
 ASSUME ReplaceTok(<<97, 44, 98>>, <<44, 59>>, <<45, 45>>) = <<97, 45, 45, 98>>
 ASSUME Fields(<<97, 44, 44, 98>>, <<44>>) = << <<97>>, <<>>, <<98>> >>
+ASSUME StopsOf(<<97, 44, 98, 32, 99>>, <<44, 32>>) = <<44, 32, 0>> /\ StopsOf(<<97, 44>>, <<44>>) = <<44>>
 ASSUME Between(<<120, 91, 97, 98, 93, 121>>, <<91>>, <<93>>) = <<TRUE, <<97, 98>>>>
 ASSUME CommaNumber(TRUE, 214748364, 8) = <<45, 50,44, 49,52,55,44, 52,56,51,44, 54,52,56>>     \* -2,147,483,648
 ASSUME CommaNumber(FALSE, 0, 0) = <<48>> /\ CommaNumber(FALSE, 99, 9) = <<57,57,57>> /\ CommaNumber(FALSE, 100, 0) = <<49,44,48,48,48>>
